@@ -290,7 +290,10 @@ func (m Message) Bytes() []byte {
 	s.AddUint16(uint16(len(m.Authority)))
 	s.AddUint16(uint16(len(m.Additional)))
 	for _, v := range m.Question {
-		parts := strings.Split(strings.TrimSuffix(v.Name, "."), ".")
+		parts := splitName(v.Name)
+		if n := len(parts); parts[n-1] == "" { // trailing dot
+			parts = parts[:n-1]
+		}
 		if len(parts) == 1 && parts[0] == "" { // root name
 			parts = nil
 		}
@@ -311,10 +314,34 @@ func (m Message) Bytes() []byte {
 	return s.BytesOrPanic()
 }
 
+// splitName returns the labels of a name. Labels are separated by dots; a
+// backslash makes the octet that follows it part of the label, which is how
+// the decoder writes a dot or a backslash inside a label.
+func splitName(name string) []string {
+	if !strings.Contains(name, `\`) {
+		return strings.Split(name, ".")
+	}
+	var labels []string
+	var label []byte
+	for i := 0; i < len(name); i++ {
+		switch c := name[i]; {
+		case c == '\\' && i+1 < len(name):
+			i++
+			label = append(label, name[i])
+		case c == '.':
+			labels = append(labels, string(label))
+			label = label[:0]
+		default:
+			label = append(label, c)
+		}
+	}
+	return append(labels, string(label))
+}
+
 func (rr RR) Bytes() []byte {
 	s := cryptobyte.NewBuilder(nil)
 	if len(rr.Name) > 0 {
-		for _, p := range strings.Split(rr.Name, ".") {
+		for _, p := range splitName(rr.Name) {
 			s.AddUint8LengthPrefixed(func(s *cryptobyte.Builder) {
 				s.AddBytes([]byte(p))
 			})
@@ -334,7 +361,7 @@ func (rr RR) Bytes() []byte {
 					s.AddUint8(0)
 					return
 				}
-				for _, p := range strings.Split(data, ".") {
+				for _, p := range splitName(data) {
 					s.AddUint8LengthPrefixed(func(s *cryptobyte.Builder) {
 						s.AddBytes([]byte(p))
 					})
@@ -351,7 +378,7 @@ func (rr RR) Bytes() []byte {
 		case HTTPS:
 			s.AddUint16(data.Priority)
 			if len(data.Target) > 0 {
-				for _, p := range strings.Split(data.Target, ".") {
+				for _, p := range splitName(data.Target) {
 					s.AddUint8LengthPrefixed(func(s *cryptobyte.Builder) {
 						s.AddBytes([]byte(p))
 					})
@@ -491,6 +518,8 @@ func (d decoder) decode() (*Message, error) {
 	return &msg, nil
 }
 
+var labelEscaper = strings.NewReplacer(`\`, `\\`, `.`, `\.`)
+
 func (d decoder) name(s *cryptobyte.String) (string, error) {
 	labels, err := d.nameLabels(s)
 	if err != nil {
@@ -542,7 +571,7 @@ func (d decoder) nameLabels(s *cryptobyte.String) ([]string, error) {
 			// A dot inside a label is not a label separator: escape it as in
 			// the presentation format (RFC 1035, Section 5.1), so that the
 			// name cannot be mistaken for another one.
-			label = strings.NewReplacer(`\`, `\\`, `.`, `\.`).Replace(label)
+			label = labelEscaper.Replace(label)
 		}
 		labels = append(labels, label)
 	}
